@@ -67,11 +67,13 @@ claim("C23", "proof",
 
 claim("C24", "proof",
       "enc_dec_segments_init, the SB loop of the EncDec kernel and assign_enc_dec_segments are modelled in Lean; for every picture/tile-group size and every "
-      "segment grid within the uint16/uint8 ranges (InitOK): every SB belongs to exactly one segment (seg_cover, seg_loop_exact), dependency counts are exact "
-      "(dep_counts_exact), a segment starts only after its predecessors finished and at most once under every interleaving of workers (assign_safe, sched_safe), "
-      "and every maximal execution completes all segments (assign_complete, sched_complete, assign_terminates) when 2 <= W or there is one segment row; the excluded "
-      "grid is proved stuck (w1_stuck) and is a real hang (recorded finding F2). Tie: the real init arrays, the real SB loop and the REAL assign_enc_dec_segments "
-      "(driven under a coroutine scheduler with seeded adversarial interleavings) are compared with the model exhaustively over W<=65,H<=34 and sampled beyond.",
+      "segment grid within the uint16/uint8 ranges (InitOK), with no further hypothesis: every SB belongs to exactly one segment (seg_cover, seg_loop_exact), "
+      "dependency counts are exact (dep_counts_exact), a segment starts only after its predecessors finished and at most once under every interleaving of workers "
+      "(assign_safe, sched_safe), and every maximal execution completes all segments (init_live, assign_complete, sched_complete, assign_terminates). A picture one SB "
+      "wide is a single segment (w1_single_segment) since the fix of finding F2 (before it such pictures with >= 2 segment rows hung: sched_stuck; the check reports "
+      "any recurrence as a VIOLATION with the grid as replay). Tie: the real init arrays, the real SB loop and the REAL assign_enc_dec_segments "
+      "(driven under a coroutine scheduler with seeded adversarial interleavings) are compared with the model exhaustively over W<=65,H<=34 and sampled beyond; "
+      "the oracle requires every run to end quiescent with every SB processed exactly once.",
       AX + "; hand-written model tied by correspondence; each mutex-protected block is one atomic step; tile-group geometry feeding W,H and what happens inside an SB are not modelled.",
       "Lean 4 proof (all sizes, all interleavings) + exhaustive/differential correspondence with the real code",
       "lean-correspondence")
